@@ -31,12 +31,20 @@ What is proved, what is not:
 * `liveness_partial`                        — finitely many further PushTask/Remove calls ⇒ every pending
                                               task is eventually taken by a worker for execution or
                                               removed by an explicit cancel (`GS.TQ.leaves_pending`).
-* `liveness_bounded_overtaking`             — INFINITELY many arrivals allowed; hypothesis from some point
-                                              on: the waiting task is not overtaken and its own peer is
-                                              not frozen further.  `lassos_overtake`: both lassos violate
-                                              exactly this, infinitely often.  NOT proved: a bound on
-                                              overtaking derived from the arrival pattern (e.g. fewer
-                                              than W peers with a sustained backlog).
+* `liveness_bounded_overtaking`             — INFINITELY many arrivals allowed, but the hypothesis
+                                              `NoOvertake` is about what the SCHEDULER DECIDES (from some
+                                              point on no worker starts another batch while the task
+                                              waits), not about the arrival pattern; it is NOT the
+                                              complement of the two finding classes (every starvation
+                                              violates it).  Its content is "no lost wake-up + the next
+                                              successful pop takes the task".  `bounded_overtaking_nonvacuous`
+                                              exhibits an execution with arrivals continuing forever
+                                              (also while the task waits) that satisfies it.
+* NO arrival-only condition weaker than "finitely many further arrivals" is proved, and the natural
+  candidates are refuted under weak fairness: bounding the competitors' backlog by the victim's
+  (`starvation_tie_lasso`), or the number of competing peers below W, even to ONE peer with two
+  workers (`starvation_spare_worker_lasso`, a schedule-adversarial execution: each worker's pop is
+  delayed until the other worker's TaskDone).
 -/
 namespace GS.C21
 open GS.TQ GS.Temporal
@@ -523,17 +531,19 @@ theorem workers_along_US {σ : Nat → Sys} (hex : Exec US σ) (h0 : (σ 0).work
     submitting requests").  `US` is the worker pool with an UNBOUNDED environment: PushTask and Remove
     may be called infinitely often, by any peers.  Hypothesis `NoOvertake u`, required only from
     some position `N` on (so finitely many violations are allowed):
-      (1) while `u` keeps waiting, no worker starts a batch of other tasks (no later overtaking of
-          `u` — the negation of what happens in both starvation lassos, where `u` is overtaken once
-          per cycle, forever: `lassos_overtake`), and
+      (1) while `u` keeps waiting, no worker starts a batch of other tasks.  NOTE: this constrains
+          the outcome of the scheduler's decisions (which PopTasks calls succeed), not the arrival
+          pattern; every starvation violates it (`lassos_overtake` for the two known ones), so it is
+          not the complement of the known finding classes, and
       (2) the freeze value of `u`'s own tracker does not grow (its peer stops cancelling queued
           requests; cancels of other peers are unrestricted).
     Then in every weakly fair execution with at least one worker, a task `u` pending at `n ≥ N` is
     later taken by a worker for execution or removed by an explicit cancel.  Arrivals from all peers,
     cancels of other peers, task durations and the schedule are arbitrary.
-    What remains unproved is any bound on overtaking from properties of the arrival pattern alone
-    (e.g. "fewer than W peers with a sustained backlog"): the two lassos show it cannot hold without
-    such a restriction. -/
+    Non-vacuity with continuing arrivals: `bounded_overtaking_nonvacuous`.
+    "Every queued request … even while other peers keep submitting" in terms of the ARRIVAL pattern
+    remains unproved beyond `liveness_partial`; `starvation_tie_lasso` and
+    `starvation_spare_worker_lasso` refute the natural arrival-only candidates. -/
 theorem liveness_bounded_overtaking (σ : Nat → Sys) (hex : Exec US σ) (hwf : WF1 US fairAct σ)
     (h0 : Inv (σ 0)) (hW : (σ 0).workers ≠ []) (u N : Nat)
     (hT : ∀ j, N ≤ j → NoOvertake u (σ j) (σ (j + 1)))
@@ -812,7 +822,7 @@ theorem starvation_tie_lasso :
   · intro n
     exact List.all_eq_true.mp tie_pending (n % tieCycle.length) (List.mem_range.mpr (Nat.mod_lt _ hL))
 
-/-! ### The bounded-overtaking hypothesis excludes exactly the lasso pattern -/
+/-! ### The two lassos violate the bounded-overtaking hypothesis (as every starvation does) -/
 
 /-- some step of the cycle starts a batch while task `u` is pending before and after -/
 def overtakesIn (u : Nat) (s0 : Sys) (cyc : List Act) : Bool :=
@@ -840,11 +850,212 @@ theorem lasso_overtakes_forever {u : Nat} {s0 : Sys} {cyc : List Act} (hL : 0 < 
     exact hno.1 hk.1.1 hk.1.2 hk.2
 
 set_option maxRecDepth 100000 in
-/-- both starvation executions violate `NoOvertake 9` infinitely often: the waiting task is overtaken
-    once per cycle, forever — so `liveness_bounded_overtaking` and the lassos are complementary. -/
+/-- both starvation executions violate `NoOvertake 9` infinitely often (the waiting task is overtaken
+    once per cycle) — as every starvation must; this is a sanity check of the hypothesis, not a
+    characterisation of the finding classes. -/
 theorem lassos_overtake :
     (∀ N, ∃ j, N ≤ j ∧ ¬ NoOvertake 9 (lassoExec busyStart busyCycle j) (lassoExec busyStart busyCycle (j + 1))) ∧
     (∀ N, ∃ j, N ≤ j ∧ ¬ NoOvertake 9 (lassoExec tieStart tieCycle j) (lassoExec tieStart tieCycle (j + 1))) :=
   ⟨lasso_overtakes_forever (by decide) (by decide), lasso_overtakes_forever (by decide) (by decide)⟩
+
+/-! ### Non-vacuity of `liveness_bounded_overtaking` with arrivals that never stop -/
+
+def noOvertakeOk (u : Nat) (s0 : Sys) (cyc : List Act) : Bool :=
+  (List.range cyc.length).all fun k =>
+    let a := stateAt s0 cyc k
+    let b := stateAt s0 cyc ((k + 1) % cyc.length)
+    (!(pendingUid u a && pendingUid u b) || decide (totalHeld b ≤ totalHeld a)) &&
+    decide (fU u b.q.peers ≤ fU u a.q.peers)
+
+theorem lasso_noOvertake {u : Nat} {s0 : Sys} {cyc : List Act} (hL : 0 < cyc.length)
+    (h : noOvertakeOk u s0 cyc = true) :
+    ∀ j, NoOvertake u (lassoExec s0 cyc j) (lassoExec s0 cyc (j + 1)) := by
+  intro j
+  have hk := List.all_eq_true.mp h (j % cyc.length) (List.mem_range.mpr (Nat.mod_lt _ hL))
+  have e2 : lassoExec s0 cyc (j + 1) = stateAt s0 cyc ((j % cyc.length + 1) % cyc.length) := by
+    unfold lassoExec
+    congr 1
+    rw [Nat.add_mod j 1]
+    rcases Nat.lt_or_ge 1 cyc.length with h1 | h1
+    · rw [Nat.mod_eq_of_lt h1]
+    · have : cyc.length = 1 := by omega
+      simp [this, Nat.mod_one]
+  rw [e2]
+  unfold lassoExec
+  obtain ⟨hk1, hk2⟩ := Bool.and_eq_true_iff.mp hk
+  refine ⟨?_, by simpa using hk2⟩
+  intro h1 h2
+  unfold took
+  rcases Bool.or_eq_true_iff.mp hk1 with h3 | h3
+  · rw [h1, h2] at h3; cases h3
+  · have : totalHeld (stateAt s0 cyc ((j % cyc.length + 1) % cyc.length)) ≤
+        totalHeld (stateAt s0 cyc (j % cyc.length)) := by simpa using h3
+    omega
+
+def hi (u : Nat) : Task := { uid := u, topic := u, prio := 9, work := 1 }
+
+def nvPrefix : List Act :=
+  [.pop 0, .push 0 (tk 0 0), .sig 0, .push 1 (hi 9), .push 1 (tk 8 8),
+   .push 0 (tk 1 1), .done 0, .ret 0, .pop 0, .done 0, .ret 0, .pop 0]
+
+/-- peer 1 submits request 9 (its most urgent), peer 0 submits another request while 9 waits; the
+    worker finishes, takes 9, finishes, takes peer 0's request; both peers submit again — forever -/
+def nvCycle : List Act :=
+  [.push 1 (hi 9), .push 0 (tk 0 0), .done 0, .ret 0, .pop 0, .done 0, .ret 0, .pop 0,
+   .push 1 (hi 9), .push 0 (tk 1 1), .done 0, .ret 0, .pop 0, .done 0, .ret 0, .pop 0]
+
+def nvStart : Sys := (runList (Sys.init 1 0) nvPrefix).getD {}
+
+set_option maxRecDepth 100000 in
+theorem nv_ok1 : lassoOk nvStart nvCycle = true := by decide +kernel
+set_option maxRecDepth 100000 in
+theorem nv_ok2 : fairOk nvStart nvCycle workerActs = true := by decide +kernel
+set_option maxRecDepth 100000 in
+theorem nv_ok3 : noOvertakeOk 9 nvStart nvCycle = true := by decide +kernel
+set_option maxRecDepth 100000 in
+theorem nv_ok4 : runList (Sys.init 1 0) nvPrefix = some nvStart := by decide
+
+theorem nv_ok : lassoOk nvStart nvCycle = true ∧ fairOk nvStart nvCycle workerActs = true ∧
+    noOvertakeOk 9 nvStart nvCycle = true ∧ runList (Sys.init 1 0) nvPrefix = some nvStart :=
+  ⟨nv_ok1, nv_ok2, nv_ok3, nv_ok4⟩
+
+/-- **The hypotheses of `liveness_bounded_overtaking` are satisfiable with arrivals that never stop**:
+    a weakly fair execution from a reachable state in which PushTask is called infinitely often (by
+    two peers, also while task 9 is waiting: positions 1→2), `NoOvertake 9` holds at every
+    position, and task 9 is pending at position 1 — and, by the theorem, executed afterwards. -/
+theorem bounded_overtaking_nonvacuous :
+    ∃ σ : Nat → Sys, Exec US σ ∧ WF1 US fairAct σ ∧ Inv (σ 0) ∧ (σ 0).workers ≠ [] ∧
+      (∀ j, NoOvertake 9 (σ j) (σ (j + 1))) ∧
+      (∀ N, ∃ j, N ≤ j ∧ ∃ p t, step (σ j) (.push p t) = some (σ (j + 1))) ∧
+      pendingUid 9 (σ 1) = true ∧ pendingUid 9 (σ 2) = true ∧
+      (∃ t, step (σ 1) (.push 0 t) = some (σ 2)) ∧
+      ∃ k, 1 ≤ k ∧ ExecutedOrCancelled 9 (σ k) (σ (k + 1)) := by
+  have hL : 0 < nvCycle.length := by decide
+  obtain ⟨h1, h2, h3, h4⟩ := nv_ok
+  have hex := lasso_exec h1 hL
+  have hwf := lasso_wf1 h1 hL h2 (fair_cover nvStart nvCycle (by decide) hL)
+  have hI : Inv (lassoExec nvStart nvCycle 0) := by
+    have : lassoExec nvStart nvCycle 0 = nvStart := rfl
+    rw [this]; exact (Inv.init 1 0).runList h4
+  have hW : (lassoExec nvStart nvCycle 0).workers ≠ [] := by decide
+  have hT := lasso_noOvertake hL h3
+  have hp1 : pendingUid 9 (lassoExec nvStart nvCycle 1) = true := by decide
+  refine ⟨_, hex, hwf, hI, hW, hT, ?_, hp1, by decide, ?_, ?_⟩
+  · intro N
+    obtain ⟨a, ha, hs⟩ := lassoOk_step h1 0 hL
+    refine ⟨0 + N * nvCycle.length, by have : N ≤ N * nvCycle.length := Nat.le_mul_of_pos_right N hL; omega, 1, hi 9, ?_⟩
+    have e2 : 0 + N * nvCycle.length + 1 = 1 + N * nvCycle.length := by omega
+    rw [e2, lassoExec_period, lassoExec_period]
+    have : a = .push 1 (hi 9) := by
+      have : nvCycle[0]? = some (.push 1 (hi 9)) := rfl
+      rw [this] at ha; cases ha; rfl
+    rw [this] at hs; exact hs
+  · obtain ⟨a, ha, hs⟩ := lassoOk_step h1 1 (by decide)
+    have : a = .push 0 (tk 0 0) := by
+      have : nvCycle[1]? = some (.push 0 (tk 0 0)) := rfl
+      rw [this] at ha; cases ha; rfl
+    rw [this] at hs
+    exact ⟨tk 0 0, hs⟩
+  · exact liveness_bounded_overtaking _ hex hwf hI hW 9 0 (fun j _ => hT j) 1 (Nat.zero_le _) hp1
+
+/-! ### Bounding the NUMBER of competing peers does not help either (weak fairness) -/
+
+/-- two workers; peer 0 submits three requests, peer 1 one (uid 9); worker 0 runs peer 0's first,
+    worker 1 takes the second right after worker 0's TaskDone -/
+def sparePrefix : List Act :=
+  [.pop 0, .pop 1, .push 0 (tk 0 0), .sig 0, .push 0 (tk 1 1), .push 0 (tk 2 2), .push 1 (tk 9 9),
+   .done 0, .tick 1, .push 0 (tk 0 0), .ret 0]
+
+/-- worker `j` reports its task done; only then the other, free worker `i` pops (peer 0 has no active
+    work at that instant and more pending tasks than peer 1); peer 0 submits again; `j` returns -/
+def spareRound (j i u : Nat) : List Act := [.done j, .pop i, .push 0 (tk u u), .ret j]
+
+def spareCycle : List Act :=
+  spareRound 1 0 1 ++ spareRound 0 1 2 ++ spareRound 1 0 0 ++
+  spareRound 0 1 1 ++ spareRound 1 0 2 ++ spareRound 0 1 0
+
+def spareStart : Sys := (runList (Sys.init 2 0) sparePrefix).getD {}
+
+def workerActs2 : List Act :=
+  [.pop 0, .sig 0, .tick 0, .done 0, .ret 0, .pop 1, .sig 1, .tick 1, .done 1, .ret 1]
+
+theorem fair_cover2 (s0 : Sys) (cyc : List Act) (hlen : (stateAt s0 cyc 0).workers.length = 2)
+    (hL : 0 < cyc.length) :
+    ∀ a, fairAct a → a ∈ workerActs2 ∨ ∃ k, k < cyc.length ∧ step (stateAt s0 cyc k) a = none := by
+  intro a ha
+  have hout : ∀ i, 2 ≤ i → (stateAt s0 cyc 0).workers.length ≤ i := fun i hi => by omega
+  cases a with
+  | push p t => simp [fairAct, isEnv] at ha
+  | remove p t => simp [fairAct, isEnv] at ha
+  | pop i =>
+    match i with
+    | 0 => left; simp [workerActs2]
+    | 1 => left; simp [workerActs2]
+    | i + 2 => right; exact ⟨0, hL, (step_none_of_index (hout _ (by omega))).1⟩
+  | sig i =>
+    match i with
+    | 0 => left; simp [workerActs2]
+    | 1 => left; simp [workerActs2]
+    | i + 2 => right; exact ⟨0, hL, (step_none_of_index (hout _ (by omega))).2.1⟩
+  | tick i =>
+    match i with
+    | 0 => left; simp [workerActs2]
+    | 1 => left; simp [workerActs2]
+    | i + 2 => right; exact ⟨0, hL, (step_none_of_index (hout _ (by omega))).2.2.1⟩
+  | done i =>
+    match i with
+    | 0 => left; simp [workerActs2]
+    | 1 => left; simp [workerActs2]
+    | i + 2 => right; exact ⟨0, hL, (step_none_of_index (hout _ (by omega))).2.2.2.1⟩
+  | ret i =>
+    match i with
+    | 0 => left; simp [workerActs2]
+    | 1 => left; simp [workerActs2]
+    | i + 2 => right; exact ⟨0, hL, (step_none_of_index (hout _ (by omega))).2.2.2.2⟩
+
+set_option maxRecDepth 100000 in
+theorem spare_ok1 : lassoOk spareStart spareCycle = true := by decide
+set_option maxRecDepth 100000 in
+theorem spare_ok2 : fairOk spareStart spareCycle workerActs2 = true := by decide
+set_option maxRecDepth 100000 in
+theorem spare_ok3 :
+    (List.range spareCycle.length).all (fun k => pendingUid 9 (stateAt spareStart spareCycle k)) = true := by decide
+set_option maxRecDepth 100000 in
+theorem spare_ok4 :
+    (List.range spareCycle.length).all (fun k => decide (runningFor (stateAt spareStart spareCycle k) 0 ≤ 1)) = true := by
+  decide
+set_option maxRecDepth 100000 in
+theorem spare_ok5 : runList (Sys.init 2 0) sparePrefix = some spareStart := by decide
+
+theorem spare_ok : lassoOk spareStart spareCycle = true ∧ fairOk spareStart spareCycle workerActs2 = true ∧
+    (List.range spareCycle.length).all (fun k => pendingUid 9 (stateAt spareStart spareCycle k)) = true ∧
+    (List.range spareCycle.length).all (fun k => decide (runningFor (stateAt spareStart spareCycle k) 0 ≤ 1)) = true ∧
+    runList (Sys.init 2 0) sparePrefix = some spareStart :=
+  ⟨spare_ok1, spare_ok2, spare_ok3, spare_ok4, spare_ok5⟩
+
+/-- **Starvation with a spare worker** — "fewer than W peers with a sustained backlog" is NOT a
+    sufficient condition under weak fairness.  Two workers, ONE competing peer that keeps two requests
+    queued, at most one of its traversals running at any time (so one worker is always free of work):
+    a weakly fair execution in which peer 1's request 9 is pending forever.  The schedule is
+    adversarial: the free worker's PopTasks always happens right after the other worker's TaskDone,
+    when peer 0 has no active work and more pending tasks.  (In real time this needs the free worker
+    to lose a race of microseconds against a TaskDone every time; it is a statement about what weak
+    fairness alone can guarantee, not a third runtime finding — the `workers` oracle would class an
+    occurrence as `starvation-busy-peer`.) -/
+theorem starvation_spare_worker_lasso :
+    ∃ σ : Nat → Sys, runList (Sys.init 2 0) sparePrefix = some (σ 0) ∧ Exec US σ ∧
+      WF1 US fairAct σ ∧ (∀ n, pendingUid 9 (σ n) = true) ∧ ∀ n, runningFor (σ n) 0 ≤ 1 := by
+  have hL : 0 < spareCycle.length := by decide
+  obtain ⟨h1, h2, h3, h4, h5⟩ := spare_ok
+  refine ⟨lassoExec spareStart spareCycle, ?_, lasso_exec h1 hL, ?_, ?_, ?_⟩
+  · show runList _ _ = some (stateAt spareStart spareCycle (0 % spareCycle.length))
+    rw [h5]; rfl
+  · exact lasso_wf1 h1 hL h2 (fair_cover2 spareStart spareCycle (by decide) hL)
+  · intro n
+    exact List.all_eq_true.mp h3 (n % spareCycle.length) (List.mem_range.mpr (Nat.mod_lt _ hL))
+  · intro n
+    have := List.all_eq_true.mp h4 (n % spareCycle.length) (List.mem_range.mpr (Nat.mod_lt _ hL))
+    show runningFor (stateAt spareStart spareCycle (n % spareCycle.length)) 0 ≤ 1
+    simpa using this
 
 end GS.C21
